@@ -60,8 +60,19 @@ def dbg(kind, strs):
     return 'X'
 
 
+_UN = ['pub trait Un { type Num; }', '#[derive(Debug, Clone, PartialEq)] pub struct Mt;', 'impl Un for Mt { type Num = M; }']
+_TOM = ['pub trait ToM { type Out; }', 'impl<K> ToM for K { type Out = M; }', 'pub type Wrap<K> = <K as ToM>::Out;']
+# (trait list, declarations before the struct, the struct, how a value is built)
 PROJECTION_STRUCTS = [
-    ('Add, SubAssign, Neg', 'pub struct L<T: Un>(pub T::Num, pub T::Num);'),
+    ('Add, SubAssign, Neg', _UN, 'pub struct L<T: Un>(pub T::Num, pub T::Num);', 'L::<Mt>'),
+    # field types that merely MENTION a well-known name (a marker type as an argument, the user's own type of that name):
+    # they are ordinary operands
+    ('Add, SubAssign, Neg', _TOM + ['pub type PhantomData = M;'],
+     'pub struct L(pub Wrap<::core::marker::PhantomData<u8>>, pub PhantomData);', 'L'),
+    ('Add, SubAssign, Neg', _TOM + ['pub type Option = M;', 'pub type Box = M;'],
+     'pub struct L(pub Option, pub Wrap<(Box, ::std::string::String, [u8; 0])>);', 'L'),
+    ('Add, SubAssign, Neg', _TOM + ['pub type Sized = M;', 'pub type Copy = M;'],
+     'pub struct L(pub Wrap<fn(Self) -> Self>, pub Wrap<&\'static dyn ::core::marker::Send>);', 'L'),
 ]
 
 
@@ -187,12 +198,12 @@ class C08(Prop):
                 self.text, self.meta = text, dict(nontrivial=True, shape=('tuple', 2))
             def input_text(self):
                 return self.text
-        for k, (tl, decl) in enumerate(PROJECTION_STRUCTS):
+        for k, (tl, setup, decl, ctor) in enumerate(PROJECTION_STRUCTS):
             for mode in ('A', 'D'):
                 cid = 6 * 10 ** 6 + 2 * k + (mode == 'D')
                 head = ('#[::derive_ex::derive_ex(%s)]\n' % tl) if mode == 'A' else '#[derive(::derive_ex::Ex)]\n#[derive_ex(%s)]\n' % tl
-                mk = lambda p: 'L::<Mt>(M("%s0".to_string()), M("%s1".to_string()))' % (p, p)
-                src = ['pub trait Un { type Num; }', '#[derive(Debug, Clone, PartialEq)] pub struct Mt;', 'impl Un for Mt { type Num = M; }',
+                mk = lambda p, ctor=ctor: '%s(M("%s0".to_string()), M("%s1".to_string()))' % (ctor, p, p)
+                src = setup + [
                        '#[derive(Debug, Clone, PartialEq)]\n' + head + decl, 'pub fn run() {',
                        '    let _ = calls(); let c = %s + %s; println!("%d\\tvv\\t{:?}\\t{}", c, calls());' % (mk('a'), mk('b'), cid),
                        '    let (a, b) = (%s, %s); let c = &a + &b; println!("%d\\trr\\t{:?}\\t{}", c, calls());' % (mk('a'), mk('b'), cid),
